@@ -182,6 +182,63 @@ func genValid(r *vkit.Run, i int, salt uint16) (in *input) {
 	return in
 }
 
+// genPlain generates query i of an auxiliary list (family "slow" or "pool"): a
+// well-formed query with a unique name under the given leading labels, of
+// random type, class, flags and well-formed EDNS, at most 512 bytes, that H
+// answers.
+func genPlain(r *vkit.Run, family string, i int, salt uint16, lead ...[]byte) (in *input) {
+	rng := r.Rand(family, i)
+	lead = append(lead, token(family[:1], i))
+
+	kind := tbench.NameRoot
+	for kind == tbench.NameRoot {
+		_, kind = tbench.GenName(rng)
+	}
+
+	qtype, _ := tbench.GenQType(rng)
+	qclass, _ := tbench.GenQClass(rng)
+	spec := &tbench.QuerySpec{
+		ID:     permID(i, salt),
+		Flags:  tbench.GenQueryFlags(rng),
+		Name:   tbench.GenNameOfKind(rng, kind, lead...),
+		QType:  qtype,
+		QClass: qclass,
+	}
+
+	var tags []string
+	spec.OPT, tags, _ = tbench.GenOPT(rng, tbench.OPTGenOptions{NoMalformed: true})
+	if spec.OPT != nil {
+		// Keep-alive is a protocol error on DoQ; this list is about answers.
+		opts := spec.OPT.Options[:0]
+		for _, o := range spec.OPT.Options {
+			if o.Code != tbench.OptKeepAlive {
+				opts = append(opts, o)
+			}
+		}
+		spec.OPT.Options = opts
+	}
+
+	wire := spec.Wire()
+	for len(wire) > 512 {
+		if spec.OPT != nil && len(spec.OPT.Options) > 0 {
+			spec.OPT.Options = spec.OPT.Options[:len(spec.OPT.Options)-1]
+		} else {
+			spec.OPT = nil
+		}
+		wire = spec.Wire()
+	}
+
+	in = &input{
+		family: family,
+		idx:    i,
+		wire:   wire,
+		desc:   fmt.Sprintf("name=%s qtype=%d qclass=%d flags=%#04x edns=%v len=%d", kind, qtype, qclass, spec.Flags, tags, len(wire)),
+		shape:  family + "|" + kind,
+	}
+
+	return in.finish()
+}
+
 // probeIDBase is the first index of the ID space reserved for liveness
 // probes; the hostile list must stay below it so that no two inputs sent from
 // one socket share an ID.
